@@ -444,6 +444,9 @@ def gen_case(sub, routines, scn_id, nmax=12):
         W = S * (1 + 1e-7 * np.array([[rnd.uniform(-1, 1) for _ in range(n)] for _ in range(n)]))
         weighted = 'float'
     narrow8 = False
+    if kind == 'sign' and not onesign and weighted is None and rnd.random() < 0.1:
+        W = W.astype(np.int8)  # a +-1 sign matrix in its natural container (works on the unchanged tree: not the 8-bit finding)
+        weighted = 'float'
     if weighted == 'int' and kind != 'sign' and rnd.random() < 0.03:
         # small integer weights held in an 8-bit container: the optimisers accumulate degrees in the container's dtype
         W = W.astype(rnd.choice((np.uint8, np.int8)))
